@@ -214,6 +214,64 @@ func resizeSweep(idx, n int) {
 	}
 }
 
+// geometryChangeSweep: the terminal's cell pixel size changes while the program runs (another font size): an
+// image resized afterwards - one that was resized before, or a new one - fits its box under the new geometry.
+func geometryChangeSweep() {
+	type geo struct{ cw, ch int }
+	for _, protoName := range []string{"kitty", "sixel"} {
+		caps := refterm.CapKittyGraphics | refterm.CapInBandResize | refterm.CapRGB
+		if protoName == "sixel" {
+			caps = refterm.CapSixelDA1 | refterm.CapInBandResize | refterm.CapRGB
+		}
+		for _, ch := range [][2]geo{{{10, 20}, {10, 10}}, {{10, 20}, {5, 10}}, {{4, 8}, {8, 16}}, {{8, 16}, {8, 8}}} {
+			from, to := ch[0], ch[1]
+			s := openSession(caps, from.cw, from.ch, 8, 8)
+			mk := func(img image.Image) vaxis.Image {
+				if protoName == "kitty" {
+					return s.Vx.NewKittyGraphic(img)
+				}
+				return s.Vx.NewSixel(img)
+			}
+			sizes := [][2]int{{40, 40}, {35, 30}, {80, 16}, {16, 80}}
+			var old []vaxis.Image
+			for _, sz := range sizes {
+				im := mk(solid(sz[0], sz[1], color.NRGBA{10, 200, 10, 255}))
+				im.Resize(6, 6)
+				waitRedraw(s)
+				old = append(old, im)
+			}
+			// the font size changes: the window keeps its pixel size, so the number of cells changes with the
+			// cell size; the next frame applies it
+			s.Con.With(func(t *refterm.Terminal) { t.Prof.CellW, t.Prof.CellH = to.cw, to.ch })
+			s.Con.ResizeTerm(8*from.cw/to.cw, 8*from.ch/to.ch)
+			s.Barrier() // the terminal reports the new size in band; wait for the library to have seen it
+			s.Vx.Render()
+			for i, sz := range sizes {
+				for _, fresh := range []bool{false, true} {
+					im := old[i]
+					if fresh {
+						im = mk(solid(sz[0], sz[1], color.NRGBA{10, 200, 10, 255}))
+					}
+					for _, box := range [][2]int{{6, 6}, {4, 2}, {3, 3}, {2, 5}} {
+						cs := fmt.Sprintf("%s %dx%d px, cell %dx%d px after a change from %dx%d, box %dx%d, fresh image: %v", protoName, sz[0], sz[1], to.cw, to.ch, from.cw, from.ch, box[0], box[1], fresh)
+						r.Count("resize_cases", 1)
+						im.Resize(box[0], box[1])
+						waitRedraw(s)
+						gw, gh := im.CellSize()
+						if why := fitOK(sz[0], sz[1], to.cw, to.ch, box[0], box[1], gw, gh); why != "" {
+							cl, rest, _ := strings.Cut(why, "|")
+							r.Violation("C20|resize|"+cl+"|after-geometry-change", sz[0]*sz[1], detail{Part: "resize", Case: cs, Why: rest})
+							continue
+						}
+						r.Distinct(explore.Hash("resize-geo", cs))
+					}
+				}
+			}
+			s.Vx.Close()
+		}
+	}
+}
+
 // ---- block rendering -----------------------------------------------------------------------------
 
 var pixelAlphabet = []color.Color{
@@ -732,6 +790,9 @@ func main() {
 		switch {
 		case arg == "resize":
 			resizeSweep(idx, n)
+			if idx == 0 {
+				geometryChangeSweep()
+			}
 		case arg == "block":
 			blockSweep(idx, n)
 			blockHistorySweep(idx, n)
@@ -759,7 +820,7 @@ func main() {
 	n := r.Get("resize_cases") + r.Get("block_cases") + r.Get("contain_cases") + trans
 	r.Finish(explore.Coverage{
 		States: -1, Transitions: n, Traces: n, Evaluations: n,
-		Rule:        "Resize: every image size 1..12 x 1..12 px (scaled with the cell geometry) x every box 0..7 x 0..7 for half-block and full-block (cell 1x2) and for kitty and sixel under cell geometries 1x1, 2x2, 2x3 (images up to 24x24 px), 8x16, 10x20 (pixel sizes learnt through the in-band resize report): box, no-upscale and aspect-within-one-cell. Block rendering: every assignment of a 7-value pixel alphabet (opaque, alpha 0/49/50/128, premultiplied half alpha) to images of 1x1..2x3 pixels, drawn and rendered, cell colours read from the reference terminal. Containment: kitty, sixel and half-block images of 1..4 x 1..3 cells into 5 windows. Placement histories: BFS to depth n over 14 frames {A absent / at two positions} x {B} x {Render, Refresh} + resize A, for kitty and sixel; the graphics commands of the last frame are compared with what the placement diff requires. distinct = cases/states that passed; block resize history: every 4x4 px image of four quadrants over the pixel alphabet, resized to 6x6 and then to each of four smaller boxes, must draw exactly what a fresh image resized once draws; in every other resize case the image object has been resized to the largest box before",
+		Rule:        "Resize: every image size 1..12 x 1..12 px (scaled with the cell geometry) x every box 0..7 x 0..7 for half-block and full-block (cell 1x2) and for kitty and sixel under cell geometries 1x1, 2x2, 2x3 (images up to 24x24 px), 8x16, 10x20 (pixel sizes learnt through the in-band resize report): box, no-upscale and aspect-within-one-cell. Block rendering: every assignment of a 7-value pixel alphabet (opaque, alpha 0/49/50/128, premultiplied half alpha) to images of 1x1..2x3 pixels, drawn and rendered, cell colours read from the reference terminal. Containment: kitty, sixel and half-block images of 1..4 x 1..3 cells into 5 windows. Placement histories: BFS to depth n over 14 frames {A absent / at two positions} x {B} x {Render, Refresh} + resize A, for kitty and sixel; the graphics commands of the last frame are compared with what the placement diff requires. distinct = cases/states that passed; block resize history: every 4x4 px image of four quadrants over the pixel alphabet, resized to 6x6 and then to each of four smaller boxes, must draw exactly what a fresh image resized once draws; in every other resize case the image object has been resized to the largest box before; geometry change: the terminal's cell pixel size changes while the program runs (4 changes, kitty and sixel): images resized before the change and new ones fit 4 boxes under the new geometry",
 		Exhaustive:  true,
 		Bounds:      map[string]any{"placement_depth": r.Pick(4, 6), "placement_states": states},
 		Assumptions: []string{"un-premultiplied colours are compared with a tolerance of 1 per channel (rounding)", "aspect within one cell: some scale in (0,1] puts both dimensions within one cell of the result"},
